@@ -221,6 +221,59 @@ def parseData (bnd : Bytes) (buf : Bytes) (start : Bool) : Except String DataRes
     let (de, di, nx) := dataCut bnd buf
     .ok ⟨(buf.take de).drop ds, di, nx⟩
 
+/-- one `next_event` call in state DATA (`start = false`) or DATA_START (`start = true`) as a function
+of the buffer: (payload released, new buffer, still waiting in DATA_START?, delimiter decision).
+In DATA_START nothing is consumed while `del_index == 0`. -/
+def dataStep (bnd : Bytes) (start : Bool) (buf : Bytes) :
+    Except String (Bytes × Bytes × Bool × Option Bool) :=
+  match parseData bnd buf start with
+  | .error e => .error e
+  | .ok r =>
+    if start && r.delIndex == 0 then .ok ([], buf, true, none)
+    else .ok (r.payload, buf.drop r.delIndex, false, r.next)
+
+/-- the `next_event` loop while the decoder stays in DATA / DATA_START: repeat `dataStep` until a
+delimiter is recognised or NEED_DATA is answered; `acc` collects the payload of the Data events.
+Result: (payload so far, buffer, still DATA_START?, decision). -/
+def dataLoop (bnd : Bytes) : Nat → Bool → Bytes → Bytes →
+    Except String (Bytes × Bytes × Bool × Option Bool)
+  | 0, start, buf, acc => .ok (acc, buf, start, none)
+  | fuel + 1, start, buf, acc =>
+    match dataStep bnd start buf with
+    | .error e => .error e
+    | .ok (p, buf', start', nx) =>
+      match nx with
+      | some f => .ok (acc ++ p, buf', false, some f)
+      | none =>
+        if start' then .ok (acc, buf, true, none)
+        else if start || !p.isEmpty then dataLoop bnd fuel false buf' (acc ++ p)
+        else .ok (acc, buf', false, none)
+
+/-- the DATA phase of one part over successive chunks: drain the buffer, append the next chunk,
+drain again … until the delimiter that ends the part is recognised.
+Result: the concatenated payload and, when a delimiter was recognised, (closing?, the bytes after
+the delimiter ++ the chunks not yet received). -/
+def dataPhase (bnd : Bytes) : Bool → Bytes → Bytes → List Bytes →
+    Except String (Bytes × Option (Bool × Bytes))
+  | start, buf, acc, [] =>
+    match dataLoop bnd (buf.length + 1) start buf acc with
+    | .error e => .error e
+    | .ok (acc', buf', _, some f) => .ok (acc', some (f, buf'))
+    | .ok (acc', _, _, none) => .ok (acc', none)
+  | start, buf, acc, c :: cs =>
+    match dataLoop bnd (buf.length + 1) start buf acc with
+    | .error e => .error e
+    | .ok (acc', buf', _, some f) => .ok (acc', some (f, buf' ++ (c :: cs).flatten))
+    | .ok (acc', buf', start', none) => dataPhase bnd start' (buf' ++ c) acc' cs
+
+/-- reference semantics of the DATA phase on the whole remaining stream `S`: the payload is what
+precedes the leftmost match of `boundary_re` (minus the line break that ends the headers when
+`start`), followed by the delimiter decision and the bytes after the delimiter -/
+def dataSpec (bnd : Bytes) (start : Bool) (S : Bytes) : Option (Bytes × Bool × Bytes) :=
+  match searchDelim bnd false S with
+  | some (s, e, f) => some ((S.take s).drop (if start then lbLen S else 0), f, S.drop e)
+  | none => none
+
 /-! ### decoder -/
 
 inductive State where
@@ -292,22 +345,18 @@ def step (d : Decoder) : Except String (Event × Decoder) :=
             | some m => if d2.partsDecoded > m then .error "RequestEntityTooLarge" else .ok (ev, d2)
             | none => .ok (ev, d2)
     | none => .ok (.needData, { d with searchPos := d.buffer.length - searchExtra })
-  | .dataStart =>
-    match parseData d.boundary d.buffer true with
+  | .dataStart | .data =>
+    let start := d.state == .dataStart
+    match dataStep d.boundary start d.buffer with
     | .error err => .error err
-    | .ok r =>
-      if r.delIndex > 0 then
-        .ok (.data r.payload r.next.isNone,
-          { d with buffer := d.buffer.drop r.delIndex,
-                   state := match r.next with | none => .data | some f => afterDelim f })
-      else .ok (.needData, d)
-  | .data =>
-    match parseData d.boundary d.buffer false with
-    | .error err => .error err
-    | .ok r =>
-      let d1 := { d with buffer := d.buffer.drop r.delIndex,
-                         state := match r.next with | none => .data | some f => afterDelim f }
-      if !r.payload.isEmpty || r.next.isSome then .ok (.data r.payload r.next.isNone, d1)
+    | .ok (p, buf', start', nx) =>
+      let st' : State := match nx with
+        | some f => afterDelim f
+        | none => if start' then .dataStart else .data
+      let d1 := { d with buffer := buf', state := st' }
+      -- DATA_START: nothing is consumed while del_index == 0
+      if start' then .ok (.needData, d1)
+      else if start || !p.isEmpty || nx.isSome then .ok (.data p nx.isNone, d1)
       else .ok (.needData, d1)
   | .epilogue =>
     if d.complete then .ok (.epilogue d.buffer, { d with buffer := [], state := .complete })
